@@ -149,7 +149,7 @@ main(void)
 
 			free_all();
 			leaked = pool_exit();
-			printf("end live=%ld leaked=%zu", hw_live, leaked);
+			printf("end live=%ld leaked=%zu | n=%llu", hw_live, leaked, (unsigned long long)hw_n);
 		}
 		/* ------------------------------------------------ elastic array */
 		else if (hc_is("ea_init", 3)) {
